@@ -1,6 +1,6 @@
 From Coq Require Import ZArith List.
 From Coq Require Import Sorted.
-From PV Require Import Base.U64 C07.C07_Model C07.C07_Arith C07.C07_Lists C07.C07_SPSC_Model C07.C07_MPMC_Model C07.C07_Chan_Model C07.C07_Batch_Model C07.C07_Proofs.
+From PV Require Import Base.U64 C07.C07_Model C07.C07_Arith C07.C07_Lists C07.C07_SPSC_Model C07.C07_MPMC_Model C07.C07_Chan_Model C07.C07_Batch_Model C07.C07_Proofs C07.C07_MPMC_Report C07.C07_MPMC_Linear C07.C07_Batch_Fifo.
 Import ListNotations.
 Local Open Scope Z_scope.
 
@@ -113,12 +113,108 @@ Theorem mpmc_e3_runs_are_runs :
 Proof. exact C07_MPMC_Proofs.e3step_reach. Qed.
 Print Assumptions mpmc_e3_runs_are_runs.
 
-(* NOT proved (kept as statements): the emptiness / fullness REPORTING of the CAS variant — a push that returns
-   false saw the queue full (tail - head = capacity) at its head load, a pop that returns false saw it empty. *)
-Definition mpmc_q_reporting_statement : Prop :=
+(* ----- emptiness / fullness REPORTING of the CAS variant (linearisable failure), C07_MPMC_Report.v.
+   Runs are given by their schedule: mrun c st0 l, l = ANY list of participant choices (= mreach, next theorem).  An
+   "instant inside the call" is a prefix l1 of the schedule, l = l1 ++ p :: l2, taken just before a step of p itself, at
+   which p has completed exactly the same calls (t_res equal; t_res grows by one entry per completed call). ----- *)
+Theorem mpmc_runs_are_schedules :
+  forall c st0 st, mreach c st0 st <-> exists l, st = mrun c st0 l.
+Proof. intros c st0 st. split; [apply mreach_mrun | intros [l ->]; apply mrun_reach]. Qed.
+Print Assumptions mpmc_runs_are_schedules.
+
+(* a pop that returns false saw the queue EMPTY (head = tail, no index claimed by a push and unclaimed by a pop) at an
+   instant inside that call: when it loaded tail (line 264).  push/pop/send/recv freely mixed. *)
+Theorem mpmc_q_pop_fail_saw_empty :
+  forall c, cfg_ok c -> forall s, 0 <= s -> forall scripts l p,
+  nowrap c (fst (mpmc_step c (mrun c (mpmc_init c s scripts) l) p)) ->
+  t_res (m_thr (fst (mpmc_step c (mrun c (mpmc_init c s scripts) l) p)) p) = RPopFail :: t_res (m_thr (mrun c (mpmc_init c s scripts) l) p) ->
+  exists l1 l2 h, l = l1 ++ p :: l2 /\
+    t_pc (m_thr (mrun c (mpmc_init c s scripts) l1) p) = Some (MPopLdT h) /\
+    t_res (m_thr (mrun c (mpmc_init c s scripts) l1) p) = t_res (m_thr (mrun c (mpmc_init c s scripts) l) p) /\
+    m_head (mrun c (mpmc_init c s scripts) l1) = m_tail (mrun c (mpmc_init c s scripts) l1) /\
+    m_gh (mrun c (mpmc_init c s scripts) l1) = m_gt (mrun c (mpmc_init c s scripts) l1).
+Proof. exact pop_fail_saw_empty. Qed.
+Print Assumptions mpmc_q_pop_fail_saw_empty.
+
+(* a push that returns false saw the C++ full() test true (tail - head a non-zero multiple of the capacity) at an instant
+   inside that call: when it loaded head (line 241).  push/pop/send/recv freely mixed. *)
+Theorem mpmc_q_push_fail_saw_full :
+  forall c, cfg_ok c -> forall s, 0 <= s -> forall scripts l p,
+  nowrap c (fst (mpmc_step c (mrun c (mpmc_init c s scripts) l) p)) ->
+  t_res (m_thr (fst (mpmc_step c (mrun c (mpmc_init c s scripts) l) p)) p) = RPushFail :: t_res (m_thr (mrun c (mpmc_init c s scripts) l) p) ->
+  exists l1 l2 v t, l = l1 ++ p :: l2 /\
+    t_pc (m_thr (mrun c (mpmc_init c s scripts) l1) p) = Some (MPushLdH v t) /\
+    t_res (m_thr (mrun c (mpmc_init c s scripts) l1) p) = t_res (m_thr (mrun c (mpmc_init c s scripts) l) p) /\
+    check_full c (m_head (mrun c (mpmc_init c s scripts) l1)) (m_tail (mrun c (mpmc_init c s scripts) l1)) = true /\
+    m_gt (mrun c (mpmc_init c s scripts) l1) <> m_gh (mrun c (mpmc_init c s scripts) l1) /\
+    (m_gt (mrun c (mpmc_init c s scripts) l1) - m_gh (mrun c (mpmc_init c s scripts) l1)) mod c_cap c = 0.
+Proof. exact push_fail_saw_full. Qed.
+Print Assumptions mpmc_q_push_fail_saw_full.
+
+(* ... which, when no participant calls recv, means at least `capacity` elements claimed by a push and not by a pop, and
+   exactly `capacity` when nobody calls send either (the RingChannel usage: push and pop only).  With recv in the mix a
+   push can return false on a drained queue: C07_MPMC_Report.mixed_push_fail_not_full (spurious false, see notes). *)
+Theorem mpmc_q_push_fail_saw_full_cas :
+  forall c, cfg_ok c -> forall s scripts, 0 <= s -> forall l p,
+  norecv_scripts scripts ->
+  nowrap c (fst (mpmc_step c (mrun c (mpmc_init c s scripts) l) p)) ->
+  t_res (m_thr (fst (mpmc_step c (mrun c (mpmc_init c s scripts) l) p)) p) = RPushFail :: t_res (m_thr (mrun c (mpmc_init c s scripts) l) p) ->
+  exists l1 l2 v t, l = l1 ++ p :: l2 /\
+    t_pc (m_thr (mrun c (mpmc_init c s scripts) l1) p) = Some (MPushLdH v t) /\
+    t_res (m_thr (mrun c (mpmc_init c s scripts) l1) p) = t_res (m_thr (mrun c (mpmc_init c s scripts) l) p) /\
+    c_cap c <= m_gt (mrun c (mpmc_init c s scripts) l1) - m_gh (mrun c (mpmc_init c s scripts) l1) /\
+    (nosend_scripts scripts -> m_gt (mrun c (mpmc_init c s scripts) l1) - m_gh (mrun c (mpmc_init c s scripts) l1) = c_cap c).
+Proof. exact push_fail_saw_full_cas. Qed.
+Print Assumptions mpmc_q_push_fail_saw_full_cas.
+
+(* the statement that stood here as a Definition (mpmc_q_reporting_statement), now proved *)
+Theorem mpmc_q_reporting :
   forall c, cfg_ok c -> forall s scripts, 0 <= s -> forall st p, mreach c (mpmc_init c s scripts) st -> nowrap c st ->
   forall prev t, t_pc (m_thr st p) = Some (MPopLdH2 prev t) -> m_head st = prev -> check_empty (m_head st) t = true ->
   exists st1, mreach c (mpmc_init c s scripts) st1 /\ m_gh st1 = m_gt st1 /\ m_gh st1 = m_gh st.
+Proof. intros c Hc s scripts H0 st p. exact (reporting_old c Hc s H0 scripts st p). Qed.
+Print Assumptions mpmc_q_reporting.
+
+(* ----- the fine-grained queue is an atomic bounded FIFO at its linearisation points (C07_MPMC_Linear.v): the composition
+   step towards the RingChannel theorems below, whose model uses an atomic FIFO.  absq st = values of the indices
+   [m_gh st, m_gt st).  Scripts of push / pop only. ----- *)
+(* every step is a stutter of the abstract queue, or appends to a non-full queue, or removes the front element *)
+Theorem mpmc_q_abs_step :
+  forall c, cfg_ok c -> forall s, 0 <= s -> forall scripts, norecv_scripts scripts -> nosend_scripts scripts ->
+  forall l q, nowrap c (fst (mpmc_step c (mrun c (mpmc_init c s scripts) l) q)) ->
+  absq (fst (mpmc_step c (mrun c (mpmc_init c s scripts) l) q)) = absq (mrun c (mpmc_init c s scripts) l) \/
+  (exists v, absq (fst (mpmc_step c (mrun c (mpmc_init c s scripts) l) q)) = absq (mrun c (mpmc_init c s scripts) l) ++ [v] /\
+             Z.of_nat (length (absq (mrun c (mpmc_init c s scripts) l))) < c_cap c) \/
+  (exists v, absq (mrun c (mpmc_init c s scripts) l) = v :: absq (fst (mpmc_step c (mrun c (mpmc_init c s scripts) l) q))).
+Proof. exact abs_step_run. Qed.
+Print Assumptions mpmc_q_abs_step.
+
+(* every completed call has a linearisation point inside the call — a step of the caller itself — at which the abstract
+   queue makes the transition of the ATOMIC operation with the result returned later (fifo_lp: push-true appends to a
+   non-full queue, push-false sees exactly capacity elements, pop-true takes the front element, pop-false sees []) *)
+Theorem mpmc_q_linearisable :
+  forall c, cfg_ok c -> forall s, 0 <= s -> forall scripts, norecv_scripts scripts -> nosend_scripts scripts ->
+  forall l p r,
+  nowrap c (fst (mpmc_step c (mrun c (mpmc_init c s scripts) l) p)) ->
+  t_res (m_thr (fst (mpmc_step c (mrun c (mpmc_init c s scripts) l) p)) p) = r :: t_res (m_thr (mrun c (mpmc_init c s scripts) l) p) ->
+  match r with RPushOk _ _ | RPushFail | RPopOk _ _ | RPopFail => True | _ => False end ->
+  exists l1 l2, l = l1 ++ p :: l2 /\
+    t_res (m_thr (mrun c (mpmc_init c s scripts) l1) p) = t_res (m_thr (mrun c (mpmc_init c s scripts) l) p) /\
+    fifo_lp (c_cap c) (absq (mrun c (mpmc_init c s scripts) l1)) r (absq (fst (mpmc_step c (mrun c (mpmc_init c s scripts) l1) p))).
+Proof. exact linearisable. Qed.
+Print Assumptions mpmc_q_linearisable.
+
+(* the hypotheses of the reporting / linearisation theorems are met by a concrete run (third push on capacity 2 fails) *)
+Example mpmc_q_linearisable_ex :
+  let c := cfg_of 2 in
+  let scripts := [[OPush 1; OPush 2; OPush 3]; [OPop]] in
+  let l := [0;0;0;0;0; 0;0;0;0;0; 0;0;0]%nat in
+  let st := mrun c (mpmc_init c 0 scripts) l in
+  cfg_ok c /\ norecv_scripts scripts /\ nosend_scripts scripts /\
+  nowrap c (fst (mpmc_step c st 0%nat)) /\
+  t_res (m_thr (fst (mpmc_step c st 0%nat)) 0%nat) = RPushFail :: t_res (m_thr st 0%nat) /\
+  absq st = [1; 2].
+Proof. exact linear_ex. Qed.
 
 (* ===== RingChannel protocol model (send<PhotonPause> / recv / notify_senders over an atomic FIFO and counter
    semaphores): every E3 replay step is a step of the transition system the statements below are about. ===== *)
@@ -187,3 +283,34 @@ Theorem batch_e3_runs_are_runs :
   forall c st0 st p f, breach c st0 st -> breach c st0 (fst (batch_e3step c st p f)).
 Proof. exact batch_e3step_reach. Qed.
 Print Assumptions batch_e3_runs_are_runs.
+
+(* per-thread FIFO across completed results (C07_Batch_Fifo.v): the indices of a thread's completed pushes (batch intervals
+   flattened; bpushed st p = items of p's completed pushes in program order) strictly increase, and so do those of its pops *)
+Theorem batch_q_fifo_per_thread :
+  forall c, cfg_ok c -> forall s scripts, 0 <= s -> s + c_cap c < W64 -> scripts_ok scripts ->
+  forall st, breach_nw c (batch_init s scripts) st ->
+  forall p, StronglySorted Z.lt (map fst (bpushed st p)) /\ StronglySorted Z.lt (map fst (bpopped st p)).
+Proof. exact batch_fifo_per_thread. Qed.
+Print Assumptions batch_q_fifo_per_thread.
+
+(* exactly once over completed results: completed push items are recorded under their index with their producer, below
+   write_head; completed pop items carry the value pushed under their index, below head; an index is never returned by two
+   pops; every index below write_head was pushed by a completed push of its producer; every index below head was returned
+   by a completed pop *)
+Theorem batch_q_exactly_once :
+  forall c, cfg_ok c -> forall s scripts, 0 <= s -> s + c_cap c < W64 -> scripts_ok scripts ->
+  forall st, breach_nw c (batch_init s scripts) st ->
+  (forall p i v, In (i, v) (bpushed st p) -> s <= i < b_whead st /\ b_gval st i = v /\ b_gwho st i = p) /\
+  (forall p i v, In (i, v) (bpopped st p) -> s <= i < b_head st /\ v = b_gval st i) /\
+  (forall p q i v w, In (i, v) (bpopped st p) -> In (i, w) (bpopped st q) -> p = q /\ v = w) /\
+  (forall i, s <= i < b_whead st -> In (i, b_gval st i) (bpushed st (b_gwho st i))) /\
+  (forall i, s <= i < b_head st -> exists q, In (i, b_gval st i) (bpopped st q)).
+Proof. exact batch_exactly_once. Qed.
+Print Assumptions batch_q_exactly_once.
+
+Example batch_q_fifo_ex :
+  let c := cfg_of 2 in
+  let scripts := [[OPushB [7; 8]]; [OPopB 2]] in
+  cfg_ok c /\ scripts_ok scripts /\
+  exists st, breach_nw c (batch_init 5 scripts) st /\ bpushed st 0%nat = [(5, 7); (6, 8)] /\ b_whead st = 7.
+Proof. exact batch_fifo_ex. Qed.
